@@ -485,6 +485,10 @@ class Real:
             self.trace.append(('roundtrip', None)); return
         other = 'yaml' if fmt == 'json' else 'json'
         x1 = self.export(src, other)[1]       # the other format, for the cross-format comparison
+        # hypotheses under which C14_reader_preserves_document says "the parser receives exactly this text" (counted, no verdict)
+        for key in ([f'export-text:{fmt}:' + ('ends-with-newline' if text1.endswith('\n') else 'no-final-newline')] +
+                    ([f'export-text:{fmt}:contains-crlf'] if '\r\n' in text1 else [])):
+            self.counts[key] = self.counts.get(key, 0) + 1
         feed = text1
         if via == 'pipe':                  # `xvc pipeline export --format F | xvc pipeline import --format F`
             rcp, feed, errp, _ = self.export(src, fmt)
@@ -1340,6 +1344,9 @@ def run(chk: Check):
             bad += judge(chk, run_scenarios(chk, xvc, MODEL[0], scs[i:i + 64], order, base))
         for i in range(0, len(docs), 64):
             bad += judge_docs(chk, run_scenarios(chk, xvc, None, docs[i:i + 64], order, base))
+    if chk.distribution.get('export-text:yaml:no-final-newline') or any(k.endswith(':contains-crlf') for k in chk.distribution):
+        chk.notes.append('an export text is outside the hypotheses of C14_reader_preserves_document (raw CRLF, or a YAML export without final newline): '
+                         'the reader theorems no longer say that stdin hands it to the parser unchanged; see export-text:* in the distribution')
     if MODEL[0] is None:
         chk.notes.append('model driver did not build; only the implementation-side oracle ran')
     else:
